@@ -147,6 +147,10 @@ def explicit_lookups(ctx, c, r, where, problems, n_present=3, n_absent=2):
                 spellings.append(("printed", str(ident)))
             elif ":" not in local:
                 spellings.append(("bare", local))
+            if len(uri) > 4:
+                # the same URI cut into namespace and local part at another place (a name is its URI, however it is split)
+                cut = r.randint(2, len(uri) - 1)
+                spellings.append(("qn_other_split", Namespace("sp%d" % r.randint(0, 3), uri[:cut])[uri[cut:]]))
         else:
             for p, u in view.items():
                 if uri.startswith(u) and p:
